@@ -130,6 +130,7 @@ def codec(sym):
         pse.require(s == c4_encode(v.to_bytes(64, "big")), "c4-encode-spec", "v=%d -> %r" % (v, s))
         pse.require(HA.C4.bytes_from_string_digest(s) == v.to_bytes(64, "big"), "c4-decode-roundtrip", "v=%d" % v)
         return
+    symstr.reset()
     saved_int = HA.__dict__.get("int")
     HA.int = lambda x, base=10: x.v if isinstance(x, symstr.HexTok) else builtins.int(x, base)
     HA.C4.charset = symstr.SymCharset(real_charset)
@@ -140,17 +141,16 @@ def codec(sym):
         c = HA.C4.__new__(HA.C4)
         c.hasher = FakeSha()
         s = c.string_digest()
-        items = list(s) if isinstance(s, str) else s.items
-        pse.require(len(items) == 90, "c4-length-90", "length %d" % len(items))
-        pse.require(items[0] == "c" and items[1] == "4", "c4-prefix", "")
+        pse.require(isinstance(s, str), "c4-is-str", type(s).__name__)
+        pse.require(len(s) == 90, "c4-length-90", "length %d" % len(s))
+        pse.require(s[0] == "c" and s[1] == "4", "c4-prefix", "")
         acc = 0
-        leading = True
-        for ch in items[2:]:
-            if isinstance(ch, symstr.SymChar):
-                d = ch.idx
+        for ch in s[2:]:
+            d = symstr.char_value(ch)
+            if d is not None:
                 pse.require(truth(pse.SymBool(z3.And(d.z >= 0, d.z < 58))), "c4-digit-range", "")
             else:
-                pse.require(isinstance(ch, str) and ch in C4_CHARSET, "c4-char-in-alphabet", repr(ch))
+                pse.require(ch in C4_CHARSET, "c4-char-in-alphabet", repr(ch))
                 d = C4_CHARSET.index(ch)
             acc = acc * 58 + d
         pse.require(truth(acc == v), "c4-encode-spec", "sum d_i*58^(87-i) != v")
